@@ -220,15 +220,17 @@ class Topology(ABC):
         """
         if name not in self.nodes.keys():
             raise TopologyException(f'Node {name} is not in this topology.')
-        for i in self.nodes[name].interface_list:
-            # disconnect if connected to a network service
-            peers = i.get_peers(itype=InterfaceType.ServicePort)
-            if peers:
-                if len(peers) == 1:
-                    # disconnect from its parent service
-                    self.get_parent_element(peers[0]).disconnect_interface(i)
-                else:
-                    raise TopologyException(f'Interface {i.name} has more than one peer, this is a model error.')
+        for pi in self.nodes[name].interface_list:
+            # disconnect the interface, and any of its sub-interfaces, if connected to a network service
+            for i in [pi] + list(pi.interface_list):
+                peers = i.get_peers(itype=InterfaceType.ServicePort)
+                if peers:
+                    if len(peers) == 1:
+                        # disconnect from its parent service
+                        self.get_parent_element(peers[0]).disconnect_interface(i)
+                    else:
+                        raise TopologyException(f'Interface {i.name} has more than one peer, '
+                                                f'this is a model error.')
 
         self.graph_model.remove_network_node_with_components_nss_cps_and_links(
             node_id=self._get_node_by_name(name=name).node_id)
@@ -286,15 +288,17 @@ class Topology(ABC):
         if fac.type != NodeType.Facility:
             raise TopologyException(f'{name} is not a Facility node, cannot remove.')
 
-        for i in self.facilities[name].interface_list:
-            # disconnect if connected to a network service
-            peers = i.get_peers(itype=InterfaceType.ServicePort)
-            if peers:
-                if len(peers) == 1:
-                    # disconnect from its parent service
-                    self.get_parent_element(peers[0]).disconnect_interface(i)
-                else:
-                    raise TopologyException(f'Interface {i.name} has more than one peer, this is a model error.')
+        for pi in self.facilities[name].interface_list:
+            # disconnect the interface, and any of its sub-interfaces, if connected to a network service
+            for i in [pi] + list(pi.interface_list):
+                peers = i.get_peers(itype=InterfaceType.ServicePort)
+                if peers:
+                    if len(peers) == 1:
+                        # disconnect from its parent service
+                        self.get_parent_element(peers[0]).disconnect_interface(i)
+                    else:
+                        raise TopologyException(f'Interface {i.name} has more than one peer, '
+                                                f'this is a model error.')
 
         self.graph_model.remove_network_node_with_components_nss_cps_and_links(
             node_id=self._get_node_by_name(name=name).node_id)
